@@ -216,6 +216,71 @@ fn cv_forward(e: &'static Engine, workers: usize, cancel_a: bool, hold: bool) {
     e.note(&format!("a_consumed={} b_before_rescue={}", a_consumed, b_ok));
 }
 
+/// a waiter is cancelled while it re-acquires the mutex after a notification (cancellation is disabled there):
+/// A and B wait; the notifier sets the predicate and notifies all while holding the mutex, cancels A, lets A work
+/// through the cancel, then unlocks. Nobody may share the mutex afterwards and it must be free at the end.
+fn cv_cancel_during_relock(e: &'static Engine, workers: usize) {
+    static BOTH: AtomicBool = AtomicBool::new(false);
+    rt_init(workers);
+    let p = Arc::new(Pair { m: Mutex::new(0), cv: Condvar::new() });
+    e.begin();
+    let mk = |p: Arc<Pair>| {
+        move || {
+            let mut g = p.m.lock().unwrap();
+            if WAITING.fetch_add(1, Ordering::SeqCst) == 1 {
+                BOTH.store(true, Ordering::SeqCst);
+            }
+            while *g == 0 {
+                g = p.cv.wait(g).unwrap();
+            }
+            // inside the mutex again
+            enter();
+            let v = *g;
+            e.sched_point();
+            *g = v + 1;
+            leave();
+            drop(g);
+            // a second, cancellable call
+            may::coroutine::sleep(Duration::from_millis(1));
+        }
+    };
+    let a = go!(mk(p.clone()));
+    let b = go!(mk(p.clone()));
+    e.wait_flag(&BOTH);
+    {
+        let mut g = p.m.lock().unwrap();
+        *g = 1;
+        p.cv.notify_all();
+        unsafe { a.coroutine().cancel() };
+        // A is woken by the notification and by the cancel while the mutex is still held here
+        e.vsleep(1_000_000);
+        enter();
+        leave();
+        drop(g);
+    }
+    let ra = a.join();
+    if let Err(pl) = &ra {
+        if pl.downcast_ref::<generator::Error>().is_none() {
+            e.fail("unexpected_panic", &format!("the cancelled waiter ended with another panic: {:?}", e.panics().last()));
+        }
+    }
+    if b.join().is_err() {
+        e.fail("unexpected_panic", &format!("the other waiter panicked: {:?}", e.panics().last()));
+    }
+    if DOUBLE.load(Ordering::SeqCst) {
+        e.fail("mutex_held_on_return", "two parties were inside the condvar's mutex at the same time");
+    }
+    // the mutex still works: lock / unlock twice
+    for _ in 0..2 {
+        match p.m.try_lock() {
+            Ok(g) => drop(g),
+            Err(std::sync::TryLockError::Poisoned(_)) => e.fail("mutex_poisoned", "the condvar's mutex is poisoned although only a cancellation unwound through it"),
+            Err(std::sync::TryLockError::WouldBlock) => e.fail("mutex_not_released", "the condvar's mutex is still locked after everybody finished"),
+        }
+    }
+    e.note(&format!("a={}", if ra.is_ok() { "ok" } else { "cancel" }));
+}
+
 fn barrier_run(e: &'static Engine, workers: usize, kinds: &'static [char], n: usize, gens: usize) {
     if kinds.contains(&'C') {
         rt_init(workers);
@@ -323,6 +388,9 @@ pub fn build(quick: bool) -> Vec<Scenario> {
         v.push(Scenario::new("C11", "condvar_forward", format!("condvar.forward.timeout.notifier_holds_mutex.w{}", w), Arc::new(move |e| cv_forward(e, w, false, true))).vt_horizon(50_000_000));
         v.push(Scenario::new("C11", "condvar_forward", format!("condvar.forward.cancel.notifier_holds_mutex.w{}", w), Arc::new(move |e| cv_forward(e, w, true, true))).vt_horizon(50_000_000));
         v.push(mk_cv(w, &[('C', "W"), ('C', "n")], "", None));
+    }
+    for w in [1usize, 2] {
+        v.push(Scenario::new("C11", "condvar_cancel_relock", format!("condvar.cancel_during_relock.w{}", w), Arc::new(move |e| cv_cancel_during_relock(e, w))).vt_horizon(50_000_000));
     }
     // barrier and wait group
     v.push(Scenario::new("C11", "barrier", "barrier.T.n2.g2", Arc::new(|e| barrier_run(e, 1, &['T'], 2, 2))).fine());
